@@ -12,6 +12,7 @@
 #include <kernel/lafem/dense_vector.hpp>
 #include <kernel/lafem/dense_vector_blocked.hpp>
 #include <kernel/lafem/sparse_vector.hpp>
+#include <kernel/lafem/sparse_vector_blocked.hpp>
 #include <kernel/lafem/dense_matrix.hpp>
 #include <kernel/lafem/sparse_matrix_csr.hpp>
 #include <kernel/lafem/sparse_matrix_bcsr.hpp>
@@ -79,6 +80,19 @@ namespace
     const Index used = c.used_elements();   // sorts lazily
     std::vector<double> v(used); std::vector<unsigned long long> ix(used);
     for(Index i = 0; i < used; ++i) { v[i] = double(c.elements()[i]); ix[i] = (unsigned long long)c.indices()[i]; }
+    s.elems.push_back(v); s.inds.push_back(ix);
+    s.scalars.push_back((unsigned long long)c.size()); s.scalars.push_back((unsigned long long)used);
+    return s;
+  }
+
+  template<typename DT_, typename IT_>
+  Snapshot snap(const SparseVectorBlocked<DT_, IT_, 2>& cv)
+  {
+    SparseVectorBlocked<DT_, IT_, 2>& c = const_cast<SparseVectorBlocked<DT_, IT_, 2>&>(cv);
+    Snapshot s;
+    const Index used = c.used_elements();   // sorts lazily
+    std::vector<double> v(2 * used); std::vector<unsigned long long> ix(used);
+    for(Index i = 0; i < used; ++i) { ix[i] = (unsigned long long)c.indices()[i]; for(int k = 0; k < 2; ++k) v[2 * i + Index(k)] = double(c.template elements<Perspective::pod>()[2 * i + Index(k)]); }
     s.elems.push_back(v); s.inds.push_back(ix);
     s.scalars.push_back((unsigned long long)c.size()); s.scalars.push_back((unsigned long long)used);
     return s;
@@ -178,6 +192,13 @@ namespace
 
   template<typename DT_, typename IT_> SparseVector<DT_, IT_> make_sv(Gen& g, const Shape& s)
   { SparseVector<DT_, IT_> v(s.n); for(Index i = 0; i < s.n; ++i) if(int(g.idx(1000)) < s.density) v(i, DT_(g.val())); return v; }
+
+  template<typename DT_, typename IT_> SparseVectorBlocked<DT_, IT_, 2> make_svb(Gen& g, const Shape& s)
+  {
+    SparseVectorBlocked<DT_, IT_, 2> v(s.n);
+    for(Index i = 0; i < s.n; ++i) if(int(g.idx(1000)) < s.density) { Tiny::Vector<DT_, 2> t; t[0] = DT_(g.val()); t[1] = DT_(g.val()); v(i, t); }
+    return v;
+  }
 
   template<typename DT_, typename IT_> DenseMatrix<DT_, IT_> make_dm(Gen& g, const Shape& s)
   { DenseMatrix<DT_, IT_> m(std::max<Index>(s.rows, 1), std::max<Index>(s.cols, 1)); for(Index i = 0; i < m.rows(); ++i) for(Index j = 0; j < m.columns(); ++j) m(i, j, DT_(g.val())); return m; }
@@ -357,6 +378,7 @@ namespace
     case 4: exercise<SparseMatrixCSR<DT_, IT_>>("SparseMatrixCSR", make_csr<DT_, IT_>, {mtx, {FileMode::fm_csr, false, "fm_csr"}, bin}, g, sh); break;
     case 5: exercise<SparseMatrixBCSR<DT_, IT_, 2, 3>>("SparseMatrixBCSR2x3", make_bcsr<DT_, IT_>, {{FileMode::fm_bcsr, false, "fm_bcsr"}, bin}, g, sh); break;
     case 6: exercise<SparseMatrixBanded<DT_, IT_>>("SparseMatrixBanded", make_banded<DT_, IT_>, {{FileMode::fm_bm, false, "fm_bm"}, bin}, g, sh); break;
+    case 8: exercise<SparseVectorBlocked<DT_, IT_, 2>>("SparseVectorBlocked2", make_svb<DT_, IT_>, {{FileMode::fm_svb, false, "fm_svb"}, bin}, g, sh); break;
     case 7: exercise<SparseMatrixCSCR<DT_, IT_>>("SparseMatrixCSCR", make_cscr<DT_, IT_>, {{FileMode::fm_cscr, false, "fm_cscr"}, bin}, g, sh); break;
     }
   }
@@ -370,7 +392,7 @@ std::string harness_run()
   sim::pthread_model_reset();
   sim::clock_reset();
   CNT = Counters();
-  int kind = int(sim::cfg_weighted("kind", {3, 2, 2, 2, 4, 3, 2, 2}));
+  int kind = int(sim::cfg_weighted("kind", {3, 2, 2, 2, 4, 3, 2, 2, 2}));
   int types = int(sim::cfg_int("types", 0, 3));
   Shape sh;
   sh.n = Index(sim::cfg_weighted("n", {2, 1, 1, 1, 1, 1, 1, 1, 1, 1, 1, 1, 1, 1, 1, 1, 1, 1, 1, 1, 1, 1, 1, 1, 1}));   // 0..24, 0 twice as likely
